@@ -612,6 +612,16 @@ def hostile_cases():
     add('only-backslash', '\\\n')
     add('only-dot', '.')
     add('mark-in-text', 'x = __supp_mark__\nx\n__supp_mark__ = 1\n__supp_mark__.\n')
+    add('nul-byte', 'a = 1\x00\nb = a\n', expand=False)
+    add('lone-surrogate', 'x = "\ud800"\nx\n', expand=False)
+    add('deep-attribute-chain-150', 'a' + '.b' * 150 + '\n', expand=False)
+    add('deep-attribute-chain-400', 'a' + '.b' * 400 + '\n', expand=False)
+    add('deep-binop-150', 'x = ' + ' + '.join(['y'] * 150) + '\n', expand=False)
+    add('deep-brackets-60', 'x = ' + '[' * 60 + 'y' + ']' * 60 + '\nx\n', expand=False)
+    add('deep-blocks-60', ''.join(' ' * i + 'if x%d:\n' % i for i in range(60)) + ' ' * 60 + 'y = 1\ny\n', expand=False)
+    flat = ''.join('if c%d:\n    v = %d\nelse:\n    w = v\n' % (i, i) for i in range(120)) + 'v\nw\n'
+    H.append({'name': 'long-flat-file', 'files': {}, 'fname': 'main.py', 'text': flat,
+              'positions': [(481, 0), (481, 1), (482, 1), (480, 9), (478, 9), (1, 5), (2, 5), (240, 9), (240, 5), (241, 0)]})
     add('long-line', 'x = [' + ', '.join('a%d' % i for i in range(40)) + ']\n')
     add('semicolons', 'a = 1; b = a; b.real; c = b\n')
     add('semicolons-unfinished', 'a = 1; b = a; b.; c = b\n')
@@ -620,6 +630,7 @@ def hostile_cases():
     add('match-statement', 'match x:\n    case [a, b]:\n        a\n    case {"k": v, **rest}:\n        v.\n'
                            '    case C(z=1) as w:\n        w\n    case str() | bytes():\n        pass\n    case _:\n        x.\n')
     add('type-params', 'type X = int\nX\ndef f[T](x: T) -> T:\n    return x\nclass A[T]:\n    y: T\nf(1).\nA().\ntype L[T] = list[T]\n')
+    add('type-param-bounds', 'def f[T: int, *Ts, **P](x: T) -> T:\n    return x\nclass A[T: (int, str)]:\n    pass\nf(1).\n')
     add('fstrings', 'x = 1\nw = 2\nf"{x.real!r:>{w}} {x=}"\nf"""{\n    x.\n}"""\nf"{x!r}".\n')
     add('decorators', '@a.b\n@c(d)\ndef f():\n    pass\n@e\nclass G:\n    @property\n    def p(self):\n        return 1\n'
                       '    @p.setter\n    def p(self, v):\n        pass\n    @staticmethod\n    def s():\n        return G\n'
